@@ -1,6 +1,7 @@
 import Placement.Driver.Core
 import Placement.Driver.Cands
 import Placement.Driver.Reads
+import Placement.Driver.Merge
 /-
   Executable of the model driver.  Extension modules (`Placement/Driver/*.lean`) register their
   command handlers in `extensions`.
@@ -8,7 +9,7 @@ import Placement.Driver.Reads
 open Placement.Driver
 
 def extensions : List Ext := [Placement.Driver.Cands.handle?,
-  Placement.Driver.Reads.handle?]
+  Placement.Driver.Reads.handle?, Placement.Driver.Merge.handle?]
 
 def main : IO Unit := do
   loop extensions (← IO.getStdin) (← IO.getStdout) {}
